@@ -18,6 +18,8 @@
 name: mbuff.clear
 define: VERIF_MB_GHOSTCOPY, VERIF_MB_GHOST1, U_CLEAR
 src: mbuff.c
+native: mbuff
+native_includes: mbuff.c
 enforce: spif_mbuff_clear
 backend: sat
 objbits: 6
@@ -27,6 +29,8 @@ flags: --slice-formula
 name: mbuff.reverse.nonempty
 define: U_REVERSE, U_NONEMPTY
 src: mbuff.c
+native: mbuff
+native_includes: mbuff.c
 enforce: spif_mbuff_reverse
 backend: sat
 loops: 1
@@ -37,6 +41,8 @@ flags: --slice-formula
 name: mbuff.reverse.empty
 define: U_REVERSE, U_EMPTY
 src: mbuff.c
+native: mbuff
+native_includes: mbuff.c
 enforce: spif_mbuff_reverse
 backend: sat
 loops: 1
@@ -47,6 +53,8 @@ flags: --slice-formula
 name: mbuff.reverse.huge
 define: U_REVERSE, U_HUGE
 src: mbuff.c
+native: mbuff
+native_includes: mbuff.c
 enforce: spif_mbuff_reverse
 backend: sat
 loops: 1
@@ -57,6 +65,8 @@ flags: --slice-formula
 name: mbuff.trim.nonempty
 define: VERIF_MB_GHOSTCOPY, VERIF_MB_GHOST1, U_TRIM, U_NONEMPTY, U_NOT_KF
 src: mbuff.c
+native: mbuff
+native_includes: mbuff.c
 enforce: spif_mbuff_trim
 backend: sat
 loops: 1
@@ -68,6 +78,8 @@ timeout: 500
 name: mbuff.trim.nonempty.ends
 define: VERIF_MB_GHOSTCOPY, VERIF_MB_GHOST1, U_TRIM, U_NONEMPTY, U_ONLY_KF
 src: mbuff.c
+native: mbuff
+native_includes: mbuff.c
 enforce: spif_mbuff_trim
 backend: sat
 loops: 1
@@ -79,6 +91,8 @@ timeout: 500
 name: mbuff.trim.empty
 define: VERIF_MB_GHOSTCOPY, VERIF_MB_GHOST1, U_TRIM, U_EMPTY
 src: mbuff.c
+native: mbuff
+native_includes: mbuff.c
 enforce: spif_mbuff_trim
 backend: sat
 loops: 1
@@ -90,6 +104,8 @@ timeout: 500
 name: mbuff.sprintf
 define: U_SPRINTF, U_NORMAL
 src: mbuff.c
+native: mbuff
+native_includes: mbuff.c
 enforce: spif_mbuff_sprintf
 backend: sat
 objbits: 6
@@ -100,6 +116,8 @@ funcs: spif_mbuff_done
 name: mbuff.sprintf.intmax
 define: U_SPRINTF, U_INTMAX
 src: mbuff.c
+native: mbuff
+native_includes: mbuff.c
 enforce: spif_mbuff_sprintf
 backend: sat
 objbits: 6
@@ -110,6 +128,8 @@ funcs: spif_mbuff_done
 name: mbuff.subbuff.accept
 define: U_SUBBUFF, U_ACCEPT
 src: mbuff.c, obj.c
+native: mbuff
+native_includes: mbuff.c
 enforce: spif_mbuff_subbuff
 backend: sat
 objbits: 6
@@ -120,6 +140,8 @@ funcs: spif_mbuff_new_from_buff, spif_mbuff_init_from_buff
 name: mbuff.subbuff.zero
 define: U_SUBBUFF, U_ZERO, U_NOT_KF
 src: mbuff.c, obj.c
+native: mbuff
+native_includes: mbuff.c
 enforce: spif_mbuff_subbuff
 backend: sat
 objbits: 6
@@ -130,6 +152,8 @@ funcs: spif_mbuff_new_from_buff, spif_mbuff_init_from_buff
 name: mbuff.subbuff.zero.inv
 define: U_SUBBUFF, U_ZERO, U_ONLY_KF
 src: mbuff.c, obj.c
+native: mbuff
+native_includes: mbuff.c
 enforce: spif_mbuff_subbuff
 backend: sat
 objbits: 6
@@ -140,6 +164,8 @@ funcs: spif_mbuff_new_from_buff, spif_mbuff_init_from_buff
 name: mbuff.subbuff.refuse
 define: U_SUBBUFF, U_REFUSE
 src: mbuff.c, obj.c
+native: mbuff
+native_includes: mbuff.c
 enforce: spif_mbuff_subbuff
 backend: sat
 objbits: 6
@@ -149,6 +175,8 @@ flags: --slice-formula
 name: mbuff.subbuff_to_ptr.accept
 define: U_SUBBUFF_PTR, U_ACCEPT
 src: mbuff.c
+native: mbuff
+native_includes: mbuff.c
 enforce: spif_mbuff_subbuff_to_ptr
 backend: sat
 objbits: 6
@@ -158,6 +186,8 @@ flags: --slice-formula
 name: mbuff.subbuff_to_ptr.refuse
 define: U_SUBBUFF_PTR, U_REFUSE
 src: mbuff.c
+native: mbuff
+native_includes: mbuff.c
 enforce: spif_mbuff_subbuff_to_ptr
 backend: sat
 objbits: 6
@@ -167,6 +197,8 @@ flags: --slice-formula
 name: mbuff.accessors
 define: U_ACCESSORS
 src: mbuff.c
+native: mbuff
+native_includes: mbuff.c
 backend: sat
 funcs: spif_mbuff_get_len, spif_mbuff_get_size, spif_mbuff_set_len, spif_mbuff_set_size
 */
@@ -185,6 +217,7 @@ funcs: spif_mbuff_get_len, spif_mbuff_get_size, spif_mbuff_set_len, spif_mbuff_s
 #ifdef U_CLEAR
 spif_bool_t spif_mbuff_clear(spif_mbuff_t self, spif_uint8_t c)
 __CPROVER_requires(MBUFF_INV(self))
+__CPROVER_requires(MB_WIT_SELF(self))
 __CPROVER_assigns(self->buff != NULL: __CPROVER_object_whole(self->buff))
 __CPROVER_ensures(RV == TRUE && MBUFF_POST(self) && MBUFF_UNCHANGED_FIELDS(self))
 __CPROVER_ensures(!(vg_k < (size_t) self->len) || self->buff[vg_k] == c)
@@ -192,6 +225,7 @@ __CPROVER_ensures(!(vg_k < (size_t) self->len) || self->buff[vg_k] == c)
 void harness(void)
 {
     spif_mbuff_t self; spif_uint8_t c;
+    w_c = c;
     spif_mbuff_clear(self, c);
     VERIF_CANARY();
 }
@@ -209,6 +243,7 @@ __CPROVER_requires(__CPROVER_is_fresh(self, sizeof(*self)) && 0x7fffffffL < self
 # else
 __CPROVER_requires(MBUFF_INV_EMPTY(self))
 # endif
+__CPROVER_requires(MB_WIT_SELF(self))
 __CPROVER_assigns(self->buff != NULL: __CPROVER_object_whole(self->buff))
 # ifdef U_EMPTY
 __CPROVER_ensures(MBUFF_STATE_EMPTY(self))
@@ -242,6 +277,7 @@ __CPROVER_requires(MBUFF_INV_NONEMPTY(self) && self->len > 0)
 # else
 __CPROVER_requires(MBUFF_INV(self) && self->len == 0)
 # endif
+__CPROVER_requires(MB_WIT_SELF(self))
 __CPROVER_assigns(vg_exit)
 __CPROVER_assigns(MBUFF_FRAME(self))
 __CPROVER_frees(self->buff)
@@ -277,6 +313,7 @@ __CPROVER_requires(R1 < 0x7fffffff)
 # else
 __CPROVER_requires(R1 >= 0x7ffffffe)   /* INT_MAX - 1 (fine) or INT_MAX (c++ overflows) */
 # endif
+__CPROVER_requires(MB_WIT_SELF(self))
 __CPROVER_assigns(vg_vsn_calls)
 __CPROVER_assigns(MBUFF_FRAME(self))
 __CPROVER_frees(self->buff)
@@ -323,6 +360,7 @@ void harness(void)
 #ifdef U_SUBBUFF
 spif_mbuff_t spif_mbuff_subbuff(spif_mbuff_t self, spif_memidx_t idx, spif_memidx_t cnt)
 __CPROVER_requires(MBUFF_INV(self) && IDX_RANGE(idx) && IDX_RANGE(cnt) && BEHAVIOUR(idx, cnt, self->len))
+__CPROVER_requires(MB_WIT_SELF(self))
 __CPROVER_assigns()
 # ifdef U_REFUSE
 __CPROVER_ensures(RV == NULL)
@@ -347,6 +385,7 @@ void harness(void)
 #ifdef U_SUBBUFF_PTR
 spif_byteptr_t spif_mbuff_subbuff_to_ptr(spif_mbuff_t self, spif_memidx_t idx, spif_memidx_t cnt)
 __CPROVER_requires(MBUFF_INV(self) && IDX_RANGE(idx) && IDX_RANGE(cnt) && BEHAVIOUR(idx, cnt, self->len))
+__CPROVER_requires(MB_WIT_SELF(self))
 __CPROVER_assigns()
 # ifdef U_REFUSE
 __CPROVER_ensures(RV == NULL)
